@@ -252,8 +252,39 @@ func c18(c *Ctx) {
 				if f.Op != token.EQL {
 					return false
 				}
-				is := func(v ssa.Value) bool { cc, ok := v.(*ssa.Call); return ok && core.CalleeID(cc) == callee }
-				return is(f.X) && is(f.Y)
+				is := func(v ssa.Value) *ssa.Call {
+					if cc, ok := v.(*ssa.Call); ok && core.CalleeID(cc) == callee && len(cc.Call.Args) > 0 {
+						return cc
+					}
+					return nil
+				}
+				cx, cy := is(f.X), is(f.Y)
+				if cx == nil || cy == nil {
+					return false
+				}
+				// one side is the new record, the other the record that was stored BEFORE the
+				// replacement: a stored-record operand read after the replacement is the new record
+				// compared with itself
+				ofNew := func(c *ssa.Call) bool { return core.Derives(c.Call.Args[0], core.Is(newRec), core.DeriveOpts{}) }
+				var old *ssa.Call
+				switch {
+				case ofNew(cx) && !ofNew(cy):
+					old = cy
+				case ofNew(cy) && !ofNew(cx):
+					old = cx
+				default:
+					return false
+				}
+				var evalAt ssa.Instruction = old
+				core.Derives(old.Call.Args[0], func(v ssa.Value) bool {
+					if u, ok := v.(*ssa.UnOp); ok && u.Op == token.MUL {
+						if t, fld, _, ok := core.FieldRef(u.X); ok && t == "tableNode" && fld == "Node" {
+							evalAt = u
+						}
+					}
+					return false
+				}, core.DeriveOpts{})
+				return !core.MayFollow(w.Store, evalAt)
 			})
 		}
 		clearBlocks := core.BlocksWith(fn, clears)
